@@ -131,8 +131,19 @@ pub fn replay(args: &[String]) {
     let recs = read_ndjson(&args[0]);
     let mut out = Out::new(None);
     let (mut n, mut bad) = (0u64, 0u64);
+    let mut hung = 0u32;
     for (idx, r) in recs.iter().enumerate() {
+        // three histories in which describe() never returned are reported; the rest of the file is not waited for (30 s each)
+        if hung >= 3 {
+            break;
+        }
         let got = run_child(&args[0], idx);
+        if got.get("died").and_then(|d| d.as_str()).map(|d| d.contains("did not return")).unwrap_or(false) {
+            hung += 1;
+            bad += 1;
+            out.line(&json!({"mismatch": idx, "program": 0, "expected": r["expected"][0], "actual": ["hung", "describe() did not return within 30 s"], "sets": r["sets"]}));
+            continue;
+        }
         let exp = r["expected"].as_array().unwrap();
         let act = got["actual"].as_array().cloned().unwrap_or_default();
         n += exp.len() as u64;
